@@ -1,10 +1,64 @@
 import WzVerif.Driver.Proto
 import WzVerif.Driver.C02
+import WzVerif.Model.FormLimitsRequest
 namespace Wz.Driver.C10
-open Wz Wz.Proto
+open Wz Wz.Proto Wz.FormReq
 
-/-- C10 uses the multipart commands of Driver/C01 (`mp.decode` reports the buffer length after every
-`receive_data`; limits are arguments) and the URL-encoded commands of Driver/C02 (`url.form`). -/
-def handle : Handler := Wz.Driver.C02.handle
+/-! C10 uses the multipart commands of Driver/C01 (`mp.decode` reports the buffer length after every
+`receive_data`; limits are arguments), the URL-encoded commands of Driver/C02 (`url.form`) and
+
+`req.history  mcl mm mp mime boundary declared terminated ops body`
+    an access history on one `Request` object (Model/FormLimitsRequest.lean): `mime` is one of
+    `mp` `url` `other` `absent`; `ops` a `,`-list of `g<cache><parse>` (get_data), `d` (.data),
+    `s` (.stream.read()), `f` (.form), `u` (.files), `v` (.values), `j<cache>` (get_json);
+    answer: one observation per access joined by `;`, then `#` and the bytes taken from wsgi.input -/
+
+def parseOp (s : String) : Option Op :=
+  match s with
+  | "g00" => some (.getData false false)
+  | "g01" => some (.getData false true)
+  | "g10" => some (.getData true false)
+  | "g11" => some (.getData true true)
+  | "d" => some .data
+  | "s" => some .streamRead
+  | "f" => some .form
+  | "u" => some .files
+  | "v" => some .values
+  | "j0" => some (.json false)
+  | "j1" => some (.json true)
+  | _ => none
+
+def outObs : Obs → String
+  | .bytes b => "B:" ++ hex b
+  | .fields f => "F:" ++ outList (fun (n, v) => C01.outOptStr n ++ "=" ++ C01.outStr v) f
+  | .files f => "U:" ++ outList (fun (x : Multipart.FileItem) => C01.outOptStr x.name ++ ":" ++ C01.outStr x.filename ++ ":" ++
+      C01.outHeaders x.headers ++ ":" ++ hex x.content) f
+  | .json => "J"
+  | .exc e => "EXC:" ++ e
+
+def reqHandle : Handler
+  | "req.history", [mcl, mm, mp, mime, bnd, declared, term, ops, body] =>
+    match optArg natArg mcl, optArg natArg mm, optArg natArg mp, unhex bnd, optArg natArg declared,
+        boolArg term, C01.listArg parseOp ops, unhex body with
+    | some mcl, some mm, some mp, some bnd, some declared, some term, some ops, some body =>
+      let mime? : Option Mime := match mime with
+        | "mp" => some (.multipart bnd)
+        | "url" => some .urlencoded
+        | "other" => some .other
+        | "absent" => some .absent
+        | _ => none
+      match mime? with
+      | none => some badArgs
+      | some mime =>
+        let c : Cfg := { mcl := mcl, mm := mm, mp := mp, mime := mime, declared := declared, terminated := term }
+        let r := run c (fresh body) ops
+        some (";".intercalate (r.1.map outObs) ++ "#" ++ toString (taken body r.2))
+    | _, _, _, _, _, _, _, _ => some badArgs
+  | _, _ => none
+
+def handle : Handler := fun cmd args =>
+  match Wz.Driver.C02.handle cmd args with
+  | some r => some r
+  | none => reqHandle cmd args
 
 end Wz.Driver.C10
